@@ -28,7 +28,7 @@ inductive BaseTy where
 
 inductive SKind where
   | container | list | leaflist | leaf | choice | case
-  deriving Repr, BEq, DecidableEq, Inhabited
+  deriving Repr, DecidableEq, Inhabited
 
 structure SNode where
   depth : Nat
